@@ -599,7 +599,6 @@ func (s *Server) inheritClientSession(pk packets.Packet, cl *Client) bool {
 		existing.State.isTakenOver.Store(true)
 		if existing.State.Inflight.Len() > 0 {
 			cl.State.Inflight = existing.State.Inflight.Clone() // [MQTT-3.1.2-5]
-			atomic.AddInt64(&s.Info.Inflight, int64(cl.State.Inflight.Len())) // the old copies are uncounted when they are cleared below
 			if cl.State.Inflight.maximumReceiveQuota == 0 && cl.ops.options.Capabilities.ReceiveMaximum != 0 {
 				cl.State.Inflight.ResetReceiveQuota(int32(cl.ops.options.Capabilities.ReceiveMaximum)) // server receive max per client
 				cl.State.Inflight.ResetSendQuota(int32(cl.Properties.Props.ReceiveMaximum))            // client receive max
@@ -617,7 +616,11 @@ func (s *Server) inheritClientSession(pk packets.Packet, cl *Client) bool {
 		// Clean the state of the existing client to prevent sequential take-overs
 		// from increasing memory usage by inflights + subs * client-id.
 		s.UnsubscribeClient(existing)
-		existing.ClearInflights()
+		for _, tk := range existing.State.Inflight.GetAll(false) {
+			// the messages live on in the new client: the old copies go quietly, they are neither dropped
+			// (no OnQosDropped, which would delete their stored records) nor uncounted
+			existing.State.Inflight.Delete(tk.PacketID)
+		}
 
 		s.Log.Debug("session taken over", "client", cl.ID, "old_remote", existing.Net.Remote, "new_remote", cl.Net.Remote)
 
